@@ -52,7 +52,43 @@ def install_table():
     return t
 
 
+CELL_TIMEOUT_S = 180
+
+
+class CellTimeout(Exception):
+    pass
+
+
 def run_cell(cell: Dict[str, Any]) -> Dict[str, Any]:
+    """run_cell with a watchdog: a library call that does not return within CELL_TIMEOUT_S is reported as a
+    non-terminating call (clause 'call-terminates'), never left hanging."""
+    import signal
+
+    def on_alarm(signum, frame):
+        raise CellTimeout()
+    old = None
+    try:
+        old = signal.signal(signal.SIGALRM, on_alarm)
+        signal.alarm(CELL_TIMEOUT_S)
+    except (ValueError, AttributeError):
+        old = None
+    try:
+        return _run_cell(cell)
+    except CellTimeout:
+        a = cell.get("action", {})
+        return {"id": cell_id(cell), "cell": cell, "draws": [], "error": None, "raised": "timeout",
+                "clauses": [{"prop": "HANG", "clause": "call-terminates", "ok": False, "method": a.get("kind", "?"),
+                             "detail": f"the call did not return within {CELL_TIMEOUT_S} s (non-terminating loop in the library?)"}]}
+    finally:
+        try:
+            signal.alarm(0)
+            if old is not None:
+                signal.signal(signal.SIGALRM, old)
+        except (ValueError, AttributeError):
+            pass
+
+
+def _run_cell(cell: Dict[str, Any]) -> Dict[str, Any]:
     """Returns {"id", "clauses": [...], "draws": [...], "error": str|None, "raised": str|None}."""
     from . import actions, harness, world as W
     t0 = time.time()
